@@ -508,6 +508,15 @@ pub fn jobs(tier: Tier, full: bool) -> Vec<Job> {
         ws.push(vec!["<p>", "<b>", "</p>", "<svg>"]);
         ws.push(vec!["<p>", "<b>", "</p>", "<table>"]);
         ws.push(vec!["<div>", "<a>", "<i>", "</div>", "<select>"]);
+        // an HTML context element, then a foreign integration point: rules that walk the stack of open elements
+        // (li / dd / dt loops, p-in-button-scope, table scopes) must stop at the MathML / SVG "special" elements
+        ws.push(vec!["<li>", "<svg>", "<foreignObject>"]);
+        ws.push(vec!["<dd>", "<math>", "<mtext>"]);
+        ws.push(vec!["<dt>", "<math>", "<annotation-xml encoding=text/html>"]);
+        ws.push(vec!["<p>", "<svg>", "<desc>"]);
+        ws.push(vec!["<button>", "<math>", "<mi>"]);
+        ws.push(vec!["<table>", "<td>", "<svg>", "<title>"]);
+        ws.push(vec!["<a>", "<b>", "<svg>", "<foreignObject>"]);
         for w in ws {
             if !full && w.iter().any(|l| is_c02_excluded(l)) {
                 continue;
